@@ -49,7 +49,18 @@ func (p *c07Pair) spec(v *c07Variant) *simrt.Spec {
 		cc.Env["THRIFTGO_PLUGIN_COMPRESS_INCLUDE"] = "1"
 	}
 	if p.Plugin {
-		cc.Plugins = []plugSpec{{Name: "rec", Path: "/plug/rec", Opts: "k=v,flag", Script: map[string]interface{}{"decode": false}, Version: p.PlugVer}}
+		// the recording plugin also hands in files, among them a name conflict and a file that is
+		// submitted under exactly the name a renamed sibling gets: the persist phase must still
+		// write every path once, whatever the schedule
+		big := "package dup\n\n" + strings.Repeat("// filler line of the second a.go\n", 400) + "var B = 2\n"
+		files := []map[string]interface{}{
+			{"name": "dup/a.go", "content": "package dup\n\nvar A = 1\n"},
+			{"name": "dup/a.go", "content": big},
+			{"name": "dup/a_1.go", "content": "package dup\n\nvar C = 3\n"},
+			{"name": "dup/notes.txt", "content": "@@thriftgo_insertion_point(x)notes\n"},
+			{"ip": "x", "content": "patched "},
+		}
+		cc.Plugins = []plugSpec{{Name: "rec", Path: "/plug/rec", Opts: "k=v,flag", Script: map[string]interface{}{"decode": true, "out_prefix": "$OUT", "files": files}, Version: p.PlugVer}}
 	}
 	sp := cc.spec(1)
 	sp.MapMode = v.MapMode
